@@ -37,6 +37,15 @@ type Program struct {
 	allFuncs   map[*ssa.Function]bool
 	typeInvs   []typeInv
 	valueInvs  []*valueInv
+	defines    map[string]*Define
+}
+
+// Define: a named predicate/expression of the contract language
+// ("//@ define name(a, b) = expr"), expanded at use.
+type Define struct {
+	Name, Pkg string
+	Params    []string
+	Body      *Clause
 }
 
 // valueInv: an invariant of every value of a named type that is stored in
@@ -102,6 +111,9 @@ func (p *Program) applySweeps() {
 			}
 			if p.fset.Position(fn.Syntax().Pos()).Filename != target {
 				continue
+			}
+			if deferOnly(fn) {
+				continue // always inlined at the defer site; its obligations are generated there
 			}
 			skip := false
 			for _, e := range sw.excl {
@@ -204,7 +216,7 @@ func loadProgram(repo string) (*Program, error) {
 	sprog.Build()
 	p := &Program{fset: pkgs[0].Fset, pkgs: pkgs, ssaProg: sprog, ssaPkgs: map[string]*ssa.Package{},
 		byName: map[string]*ssa.Function{}, contracts: map[string]*FuncContract{}, funcIDs: map[*ssa.Function]int{},
-		modsets: map[*ssa.Function]*ModSet{}, repo: repo, extSpecs: map[string]*FuncContract{}}
+		modsets: map[*ssa.Function]*ModSet{}, repo: repo, extSpecs: map[string]*FuncContract{}, defines: map[string]*Define{}}
 	for i, sp := range spkgs {
 		if sp == nil {
 			continue
@@ -367,7 +379,7 @@ func representable(t types.Type, depth int) bool {
 
 var clauseKeywords = map[string]bool{"func": true, "requires": true, "ensures": true, "loop": true, "arith": true,
 	"safety": true, "inline": true, "pure": true, "trusted": true, "skip": true, "ghost": true, "lemma": true,
-	"modifies": true, "note": true, "opaque": true, "sweep": true, "typeinv": true, "noinv": true, "valueinv": true, "params": true, "noloopinv": true}
+	"modifies": true, "note": true, "opaque": true, "sweep": true, "typeinv": true, "noinv": true, "valueinv": true, "params": true, "noloopinv": true, "define": true}
 
 func (p *Program) parseContracts(pk *packages.Package) error {
 	for i, f := range pk.Syntax {
@@ -415,6 +427,25 @@ func (p *Program) parseContractFile(pkgName string, f *ast.File, fname string, e
 				}
 				p.typeInvs = append(p.typeInvs, typeInv{pkg: pkgName, typ: ws[0], fn: ws[1], line: where})
 				cur = nil
+				continue
+			}
+			if word == "define" {
+				// define name(p1, p2) = expr
+				i := strings.Index(rest, "=")
+				head := strings.TrimSpace(rest[:i])
+				j := strings.Index(head, "(")
+				if i < 0 || j < 0 || !strings.HasSuffix(head, ")") {
+					return fmt.Errorf("%s: malformed define", where)
+				}
+				d := &Define{Name: head[:j], Pkg: pkgName, Body: &Clause{Kind: "define", Text: strings.TrimSpace(rest[i+1:]), Line: where}}
+				for _, a := range strings.Split(head[j+1:len(head)-1], ",") {
+					if a = strings.TrimSpace(a); a != "" {
+						d.Params = append(d.Params, a)
+					}
+				}
+				p.defines[pkgName+"."+d.Name] = d
+				cur = nil
+				lastStr = &d.Body.Text
 				continue
 			}
 			if word == "valueinv" {
@@ -732,6 +763,11 @@ func (p *Program) applyFuncTypeContracts() {
 				for _, en := range tc.Ensures {
 					c2 := *en
 					fc.Ensures = append(fc.Ensures, &c2)
+					if !strings.Contains(en.Text, "result") {
+						c3 := *en
+						c3.Kind = "invariant"
+						fc.LoopTypeInvs = append(fc.LoopTypeInvs, &c3)
+					}
 				}
 				for pr := range tc.Props {
 					_ = pr
